@@ -192,6 +192,9 @@ func NewGcpMultiEndpoint(meOpts *GCPMultiEndpointOptions, opts ...grpc.DialOptio
 // [GCPMultiEndpoint] implements [grpc.ClientConnInterface] and can be used
 // as a [grpc.ClientConn] when creating gRPC clients.
 func NewGCPMultiEndpoint(meOpts *GCPMultiEndpointOptions, opts ...grpc.DialOption) (*GCPMultiEndpoint, error) {
+	if meOpts == nil {
+		return nil, fmt.Errorf("GCPMultiEndpointOptions must not be nil")
+	}
 	// Read config, create multiendpoints and pools.
 	o, err := makeOpts(meOpts, opts)
 	if err != nil {
@@ -297,6 +300,9 @@ func (mc *monitoredConn) stopMonitoring() {
 //   - For an existing endpoint nothing will change (the connection pool will not be re-created,
 //     thus no connection credentials change, nor connection configuration change).
 func (gme *GCPMultiEndpoint) UpdateMultiEndpoints(meOpts *GCPMultiEndpointOptions) error {
+	if meOpts == nil {
+		return fmt.Errorf("GCPMultiEndpointOptions must not be nil")
+	}
 	gme.mu.Lock()
 	defer gme.mu.Unlock()
 	if _, ok := meOpts.MultiEndpoints[meOpts.Default]; !ok {
